@@ -60,10 +60,14 @@ pub fn gen_case(seed: u64, hist: u64, p: &GenParams, plan: &str) -> HistCase {
     let cfg = genr::gen_config(&mut r, p);
     let mut g = Gen::new(r.next(), hist, p.clone());
     let mut steps = g.history();
-    if plan == "C16" || (plan == "C06" && !p.small_cache && r.chance(1, 3)) {
+    if plan == "C16" || ((plan == "C06" || plan == "C01" || plan == "C11") && !p.small_cache && r.chance(1, 3)) {
         // (C06: calls with arguments at the integer limits that the specification refuses must be refused)
         let n = g.r.range(6, 16) as usize;
         g.adversarial_burst(n, &mut steps);
+        if plan == "C11" {
+            // what the accepted calls of the burst journalled is compared byte for byte as well
+            steps.push(genr::Step { op: Op::Sync, expect: Expect::Accept });
+        }
     }
     HistCase { seed, hist, cfg, steps, tags: g.tags.iter().map(|s| s.to_string()).collect(), plan: plan.to_string(), create_fault: if (plan == "C02" && r.chance(1, 3)) || (plan == "C11" && r.chance(1, 4)) { Some(r.range(1, 6) as u32) } else { None } }
 }
@@ -150,8 +154,8 @@ impl<'a> Runner<'a> {
         let lo = self.m.first_index().unwrap_or(0);
         let hi = self.m.st.last.map(|l| l.1).unwrap_or(0);
         for _ in 0..3 {
-            let a = lo.saturating_sub(2) + self.r.below(hi.saturating_sub(lo) + 5);
-            let b = a + self.r.below(hi.saturating_sub(lo) + 5);
+            let a = lo.saturating_sub(2).saturating_add(self.r.below(hi.saturating_sub(lo).saturating_add(5)));
+            let b = a.saturating_add(self.r.below(hi.saturating_sub(lo).saturating_add(5)));
             let want = self.m.range(a, b);
             match self.st.read(a, b) {
                 Outcome2::Ok(v) => {
@@ -495,6 +499,14 @@ impl<'a> Runner<'a> {
                         for r in &recs {
                             self.m.apply(r);
                             self.j.append(r, &self.m.st);
+                        }
+                        // specification and store agree that the call is accepted: then they must agree on its effect too
+                        // (C01; the journal bytes are compared at the next flush by C11's rule)
+                        if !matches!(op, Op::UpdateState(_)) {
+                            let got = self.st.state();
+                            if got != self.m.st {
+                                return Err(self.v("C01", "state_mismatch:limit_argument", format!("after accepted {}: store state {:?}, reference {:?}", op.brief(), got, self.m.st)));
+                            }
                         }
                     }
                     if matches!(op, Op::UpdateState(_)) {
